@@ -1322,11 +1322,18 @@ class Transport(threading.Thread, ClosingContextManager):
             if len(self.server_accepts) > 0:
                 chan = self.server_accepts.pop(0)
             else:
-                self.server_accept_cv.wait(timeout)
+                # Wait in short slices so that a session which has ended (or
+                # ends while we wait) is noticed: nothing can arrive then.
+                end = None if timeout is None else time.time() + timeout
+                while self.active and len(self.server_accepts) == 0:
+                    remaining = 0.1 if end is None else end - time.time()
+                    if remaining <= 0:
+                        break
+                    self.server_accept_cv.wait(min(0.1, remaining))
                 if len(self.server_accepts) > 0:
                     chan = self.server_accepts.pop(0)
                 else:
-                    # timeout
+                    # timeout, or the session is over
                     chan = None
         finally:
             self.lock.release()
@@ -2320,7 +2327,7 @@ class Transport(threading.Thread, ClosingContextManager):
                     event.set()
                 try:
                     self.lock.acquire()
-                    self.server_accept_cv.notify()
+                    self.server_accept_cv.notify_all()
                 finally:
                     self.lock.release()
             self.sock.close()
